@@ -1,9 +1,40 @@
 import LinfaSpec.Model.Proto
+import LinfaSpec.Model.ParamGuard
+import LinfaSpec.Model.ParamRanges
+import LinfaSpec.Gen.C04Params
 
 namespace LinfaSpec.Drv.C04
-open LinfaSpec.Proto
+open LinfaSpec.Proto LinfaSpec.ParamGuard
 
-/-- stub: replaced when the property's model lands -/
-def handle (_toks : List String) : String := "bad-op"
+def showRes : Except String Unit → String
+  | .ok _ => "ok"
+  | .error t => "err:" ++ t
+
+/-- `grid b=<Builder> field=value …`: the generated `check` on the decoded parameter point, through the
+trait-level code (`check_ref`, `check`, blanket `fit`/`fit_with`/`transform` over an abstract inner fit that
+always trains), next to the documented range and finiteness of the point. -/
+def handleGrid (toks : List String) : Option String := do
+  let b ← arg toks "b"
+  let chk ← Gen.C04.checkByName b toks
+  let (inr, fin) ← Ranges.rangeByName b toks
+  -- trait level: the parameter point is a token (`()`): the decision depends on the guard only
+  let guard : Unit → Except String Unit := fun _ => chk
+  let r := checkRef guard ()
+  let v := checkVal guard ()
+  let f : Except String String := fitUnchecked guard id (fun _ (_ : Unit) => .ok "as-checked") () ()
+  let fw : Except String String := fitWithUnchecked guard id (fun _ (_ : Unit) (_ : Unit) => .ok "as-checked") () () ()
+  let tr : Except String String := transformUnchecked guard (fun _ (_ : Unit) => "as-checked") () ()
+  let sh : Except String String → String := fun x => match x with | .ok s => s | .error t => "err:" ++ t
+  -- the three blanket impls take the same decision; the harness reports the one the builder has
+  if (sh f != sh fw) || (sh f != sh tr) then none else
+  -- accepted non-finite points are outside the property: the harness does not train with them
+  let fitS := if (match chk with | .ok _ => true | _ => false) && !fin then "skipped" else sh f
+  some s!"ref={showRes (r.map fun _ => ())} val={showRes (v.map fun _ => ())} fit={fitS} inrange={if inr then 1 else 0} finite={if fin then 1 else 0}"
+
+def handle (toks : List String) : String :=
+  let r := match toks with
+    | "grid" :: rest => handleGrid rest
+    | _ => none
+  r.getD "bad-op"
 
 end LinfaSpec.Drv.C04
